@@ -174,8 +174,8 @@ fn capacity_sum_g(filters: bool) {
 #[cfg(not(cells_small))] #[kani::proof] #[kani::unwind(26)] fn cells_order() { cells_full_g(false); }
 #[cfg(not(cells_small))] #[kani::proof] #[kani::unwind(26)] fn cells_pages_order() { cells_pages_g(false); }
 #[cfg(cells_small)] #[kani::proof] #[kani::unwind(26)] fn cells_filters_small() { cells_full_g(true); }
-#[cfg(cells_small)] #[kani::proof] #[kani::unwind(26)] fn cells_order_small() { cells_full_g(false); }
 #[cfg(cells_small)] #[kani::proof] #[kani::unwind(26)] fn capacity_sum_small() { capacity_sum_g(true); }
+#[cfg(cells_small)] #[kani::proof] #[kani::unwind(26)] fn cells_pages_small() { cells_pages_g(false); }
 // thorough tier: everything symbolic at once
 #[cfg(not(cells_small))] #[kani::proof] #[kani::unwind(26)] fn cells_full() { cells_full_g(true); }
 #[cfg(not(cells_small))] #[kani::proof] #[kani::unwind(26)] fn cells_pages() { cells_pages_g(true); }
